@@ -173,7 +173,11 @@ FilterFirst == { Child(<<SFilter(f)>>) : f \in FAll } \cup { Desc(<<SFilter(f)>>
                \cup { Child(<<SFilter(f), SFilter(g)>>) : f \in FSmall, g \in FSmall } \cup { N(kA), N(kB), W, Ix(0) }
 FilterNext == { Child(<<SFilter(f)>>) : f \in FSmall } \cup { N(kA), N(kB), Ix(0), W, Parent, Desc(<<SName(kA)>>) }
 
-Alphabet(pos) == CASE Mode = "seg" -> (IF pos < MaxSegs THEN SegFull ELSE SegTail)
+SegMid == SegTail \cup { N(kB), N(kS), N(kD), N(kU), Ix(1), Ix(0 - 2), Child(<<Sl(BV(1), BAbs, BAbs)>>), Child(<<SIdx(1), SIdx(0)>>),
+                        Child(<<SName(kA), SWild>>), Child(<<SPath("cur", <<N(kA), Ix(0)>>), SName(kA)>>), Desc(<<SName(kA)>>), Desc(<<SIdx(0)>>),
+                        Child(<<SFilter(FCmp("==", Cur(<<N(kA)>>), L(I(1))))>>), Child(<<SFilter(FNot(Cur(<<N(kB)>>)))>>) }
+\* positions 1..2 draw from the full alphabet, position 3 from SegTail (quick) or SegMid (thorough), position 4 from SegTail
+Alphabet(pos) == CASE Mode = "seg" -> (IF pos <= 2 THEN SegFull ELSE IF pos = 3 /\ MaxSegs > 3 THEN SegMid ELSE SegTail)
                    [] Mode = "slice" -> SliceSegs
                    [] Mode = "filter" -> (IF pos = 1 THEN FilterFirst ELSE FilterNext)
 
@@ -216,7 +220,7 @@ Marker == JInt(77)
 Res == NodesOf(raw)
 Case == LET ns == Res  nd == NoDupIdx(ns) IN
   [ m |-> Mode, d |-> Wire(doc),
-    ex |-> <<Show(segs, StyDot), Show(segs, StyBrS), Show(segs, StyBrD), Show(segs, StyDotD)>>,
+    ex |-> SetToSeq({ Show(segs, sty) : sty \in {StyDot, StyBrS, StyBrD, StyDotD} }),
     dc |-> Unconstrained(raw), ord |-> ~OrderOpen(raw),
     r |-> [i \in 1..Len(ns) |-> <<NormPath(NPath(ns[i])), Wire(NVal(ns[i]))>>],
     nd |-> nd, so |-> SortIdx(ns, AllIdx(ns)), ns |-> SortIdx(ns, nd),
